@@ -137,6 +137,23 @@ func installNatives(in *Interp) {
 		}
 		return val.V{K: val.List, L: append([]val.V{a[0]}, a[1].L...)}, nil
 	})
+	nat(in, "conj", func(in *Interp, a []val.V) (val.V, *Thrown) {
+		if len(a) < 2 {
+			return val.V{}, bad
+		}
+		switch a[0].K {
+		case val.Vec:
+			return val.V{K: val.Vec, L: append(append([]val.V{}, a[0].L...), a[1:]...)}, nil
+		case val.List:
+			out := append([]val.V{}, a[0].L...)
+			for _, x := range a[1:] {
+				out = append([]val.V{x}, out...)
+			}
+			return val.V{K: val.List, L: out}, nil
+		}
+		in.Unspecified("conj on a non-sequence")
+		return val.V{}, nil
+	})
 	nat(in, "concat", func(in *Interp, a []val.V) (val.V, *Thrown) {
 		out := []val.V{}
 		for _, x := range a {
